@@ -753,8 +753,14 @@ class LLUDPMessageLogEntry(AbstractMessageLogEntry):
         # name, block_name, var_name(, subfield_name)?
         if selector_len not in (3, 4):
             return MatchResult(False, [])
+        try:
+            # Parses the body if that hasn't happened yet
+            block_names = list(message.blocks)
+        except Exception:
+            # The body doesn't parse, so there are no fields a comparison could be true of
+            return MatchResult(False, [])
         found_field_keys = []
-        for block_name in message.blocks:
+        for block_name in block_names:
             if not fnmatch.fnmatchcase(block_name, matcher.selector[1]):
                 continue
             for block_num, block in enumerate(message[block_name]):
